@@ -197,6 +197,10 @@ struct Dumper
             for (auto* p : fd->parameters())
                 J.value(ty(p->getType()));
         });
+        J.attributeArray("cpt", [&] {
+            for (auto* p : fd->parameters())
+                J.value(cty(p->getType()));
+        });
     }
 
     void expr(const Expr* e0)
@@ -939,6 +943,7 @@ struct Dumper
                     J.object([&] {
                         J.attribute("name", p->getNameAsString());
                         J.attribute("t", ty(p->getType()));
+                        J.attribute("ct", cty(p->getType()));
                         if (p->hasDefaultArg() && !p->hasUninstantiatedDefaultArg() && !p->hasUnparsedDefaultArg()) {
                             J.attributeBegin("def");
                             expr(p->getDefaultArg());
@@ -1022,6 +1027,10 @@ struct Dumper
                         J.attributeArray("pt", [&] {
                             for (auto* p : m->parameters())
                                 J.value(ty(p->getType()));
+                        });
+                        J.attributeArray("cpt", [&] {
+                            for (auto* p : m->parameters())
+                                J.value(cty(p->getType()));
                         });
                         J.attributeArray("defaults", [&] {
                             for (auto* p : m->parameters()) {
